@@ -200,6 +200,21 @@ def effects_job(job_id, st, rlimit):
         ob("E-sim-restores-on-success (C05): with a simulation date the normal exit passes through reset_values after every model write", rs and max(rs) > max(writes) and all(rows[i][3] for i in rs))
         ob("E-sim-restores-on-exception (C05): every exit after a model write, including exceptional ones, restores the baseline (try/finally)",
            any(isinstance(n, ast.Try) for n in ast.walk(ex.node)))
+    # ---- C06: the simulation date (statement-level facts read off the real AST)
+    assigns = [n for n in ast.walk(ex.node) if isinstance(n, ast.Assign) and any(ast.unparse(t) == "self.simulation_date" for t in n.targets)]
+    # recognised shapes are discharged; any other way of writing these statements is UNDECIDED(tool) (the bounded tier decides),
+    # never a violation: a statement-level fact must not alarm on an equivalent rewrite
+    if len(assigns) >= 1 and all(isinstance(a.value, ast.Name) and a.value.id == "simulation_date" for a in assigns):
+        ob("E-date-kept (C06): self.simulation_date is the date given, unchanged (an aware datetime denotes an instant whatever its zone)", True)
+    else:
+        eng.undecided(f"{q}/E-date-kept (C06)", "self.simulation_date is not assigned the plain parameter: equivalence of the expression is outside the statement-level profile")
+    naive = [n for n in ast.walk(ex.node) if isinstance(n, ast.If) and "tzinfo is None" in ast.unparse(n.test).replace("  ", " ")
+             and any(isinstance(x, ast.Raise) and "ValueError" in ast.unparse(x) for x in n.body)]
+    first_model_write_line = min([rows[i][0] for i in writes], default=10**9)
+    if naive:
+        ob("E-naive-date-refused (C06): a naive date raises ValueError, before the first model write", all(n.lineno < first_model_write_line for n in naive))
+    else:
+        eng.undecided(f"{q}/E-naive-date-refused (C06)", "no `tzinfo is None -> raise ValueError` statement recognised")
     eng.obligations.append(Obligation(f"{q}/cover", [], z3.BoolVal(False), "cover", q, ()))
     info = ex.info(); info["effect_rows"] = [list(r) for r in rows]
     return [(info, eng)]
